@@ -29,10 +29,15 @@
        because v.(lambda*I + X'X).v = lambda*|v|^2 + |Xv|^2; so the per-arm sequence of _RidgeRegression.fit calls never raises
        LinAlgError, whatever the data.  The ridge matrix is symmetric, hence the left inverse is a right inverse as well and
        beta SOLVES (lambda*I + X'X) beta = X'y (lin_history_beta_solves_the_normal_equations) - no proviso left.
-    ..._partial: the limit alpha -> 0 of the LinTS draw (needs the law of the multivariate normal) is not proved: the request
-    parameters (mean beta, covariance alpha^2*A_inv) and the linear read-out are; numpy.linalg.solve is the independent oracle on every run. *)
+     * THE LinTS LIMIT (LinTSLimit.v): what a multivariate-normal draw is belongs to numpy; under numpy's construction, stated as a hypothesis on the generator
+       (mvn_scale_law: the sample for covariance a^2*C is mean + a*dev with dev independent of a), the LinTS expectation of every row is
+       row.beta + alpha*(row.dev_row) - centred on x.beta, at distance alpha*|row.dev_row| from it, hence tending to x.beta as alpha tends to 0, and EQUAL to
+       the exploit value at alpha = 0.  The hypothesis is satisfiable (point-mass generator) and is exercised on the code by the relation: the same history
+       and seed with alpha and alpha/4 deviate from numpy.linalg.solve's x.beta in the ratio 4.
+    ..._partial: the request parameters (mean beta, covariance alpha^2*A_inv) and the linear read-out without any assumption on the generator;
+    numpy.linalg.solve is the independent oracle on every run. *)
 From Coq Require Import List ZArith Bool Arith QArith Qcanon Permutation.
-From MW Require Import Num Assoc AssocFacts Rng Par CF CFInv CFClean CFForget CFSpec Matrix Lin Warm WarmInv Nbr NbrFacts NbrIndep LshFacts Clu Tree CellFacts Mab FacadeCF FacadeArms MoreFacts NumLaws CFAlg Sim Extra QcInst OrderFacts ExpIrrel LinInv FacadeLin LpInv NbrInv CluTreeInv FacadeAll ToyFacts C09All C10All LinForget LinSim MatrixFacts GaussJordan LinSpec NbrIndepGen CluIndep C17Lin WarmIdem C14More LshScale TreeLeaf Rename PopSpec CopyFacts StatFacts CluBatch LinWarm RidgeExists LinRidge.
+From MW Require Import Num Assoc AssocFacts Rng Par CF CFInv CFClean CFForget CFSpec Matrix Lin Warm WarmInv Nbr NbrFacts NbrIndep LshFacts Clu Tree CellFacts Mab FacadeCF FacadeArms MoreFacts NumLaws CFAlg Sim Extra QcInst OrderFacts ExpIrrel LinInv FacadeLin LpInv NbrInv CluTreeInv FacadeAll ToyFacts C09All C10All LinForget LinSim MatrixFacts GaussJordan LinSpec NbrIndepGen CluIndep C17Lin WarmIdem C14More LshScale TreeLeaf Rename PopSpec CopyFacts StatFacts CluBatch LinWarm RidgeExists LinRidge LinTSLimit.
 Import ListNotations.
 
 Theorem C02_init_state :
@@ -364,6 +369,45 @@ Theorem C02_lints_request_and_linear_readout_partial :
      (chunk_rows (length x) (length (r_beta m)) smp).
 Proof. exact @lints_request_and_readout. Qed.
 Print Assumptions C02_lints_request_and_linear_readout_partial.
+
+Theorem C02_lints_expectation_is_x_beta_plus_alpha_times_a_deviation :
+  forall (R A G : Type) (N : Num R),
+  NumLaws N ->
+  forall RG : RngOps R G,
+  mvn_scale_law N RG ->
+  exists dev : G -> list R -> mat -> nat -> list (list R),
+    forall (s : (@lin R A G)) (m : (@ridge R G)) (g gm : G) (x : (@mat R)),
+    l_kind s = RTs ->
+    r_scaler m = None ->
+    r_rng m = Some gm ->
+    fst (fst (ridge_predict N RG s m g x)) =
+    map2
+      (fun row drow : list R =>
+       add N (nsum N (map2 (mul N) row (r_beta m))) (mul N (l_alpha s) (nsum N (map2 (mul N) row drow))))
+      x (dev gm (r_beta m) (r_Ainv m) (length x)) /\
+    length (dev gm (r_beta m) (r_Ainv m) (length x)) = length x.
+Proof. exact @lints_expectation_is_affine_in_alpha. Qed.
+Print Assumptions C02_lints_expectation_is_x_beta_plus_alpha_times_a_deviation.
+
+Theorem C02_lints_at_alpha_zero_is_the_exploit_value :
+  forall (R A G : Type) (N : Num R),
+  NumLaws N ->
+  forall RG : RngOps R G,
+  mvn_scale_law N RG ->
+  forall (s : (@lin R A G)) (m : (@ridge R G)) (g gm : G) (x : (@mat R)),
+  l_kind s = RTs ->
+  r_scaler m = None ->
+  r_rng m = Some gm ->
+  l_alpha s = zero N ->
+  fst (fst (ridge_predict N RG s m g x)) =
+  map (fun row : list R => nsum N (map2 (mul N) row (r_beta m))) x.
+Proof. exact @lints_alpha_zero. Qed.
+Print Assumptions C02_lints_at_alpha_zero_is_the_exploit_value.
+
+Theorem C02_lints_generator_hypothesis_is_satisfiable :
+  mvn_scale_law QcNum MeanRng.
+Proof. exact @mean_rng_meets_the_law. Qed.
+Print Assumptions C02_lints_generator_hypothesis_is_satisfiable.
 
 (* finding D2, stated about the model that is faithful to the code: the covariance of a never-observed arm *)
 Definition q (z : Z) : Qc := Q2Qc (inject_Z z).
